@@ -393,6 +393,41 @@ def check(ctx):
         def genuine(t):
             return tm.select(t, lambda a: True if a is member else None)
         ret = genuine(res.ret)
+        # a fast path "identity -> 0.0": fine for the *exact* identity; with
+        # a tolerance every rotation below it gets the angle 0, so the angle
+        # is no longer zero only for equal rotations
+        shortcut_bad = None
+        for _ in range(3):
+            if ret.op != "ite":
+                break
+            c, a_, b_ = ret.args
+            zero = lambda z: tm.is_const(z) and not isinstance(
+                z.args[1], bool) and z.args[1] == 0
+            if zero(a_) or zero(b_):
+                cc = c.args[0] if c.op == "not" and zero(b_) else c
+                approx = any(is_call_to(y, "numpy.allclose", "numpy.isclose",
+                                        "math.isclose") or (
+                    y.op == "cmp" and y.args[0] in ("Lt", "LtE") and any(
+                        is_call_to(w, "numpy.abs", "builtins.abs",
+                                   "numpy.linalg.norm") for w in y.walk()))
+                    for y in cc.walk())
+                exact = any(is_call_to(y, "numpy.array_equal") or (
+                    is_call_to(y, ".all", "numpy.all")) for y in cc.walk())
+                if approx:
+                    shortcut_bad = cc
+                elif not exact:
+                    break
+                ret = genuine(b_ if zero(a_) else a_)
+                continue
+            break
+        if shortcut_bad is not None:
+            ctx.ob("C09.4", f, False,
+                   f"[degrees={deg}] rotations that pass "
+                   f"{fmt(shortcut_bad)[:80]} get the angle 0.0: the angle "
+                   f"of a small but non-zero rotation is lost (and with it "
+                   f"'zero only for equal rotations' and the accumulation "
+                   f"of per-frame angles)", key=f"C09.4:angle:{deg}")
+            continue
         x = ret
         if is_call_to(x, "builtins.float") and x.args[1]:
             x = genuine(x.args[1][0])
